@@ -158,6 +158,15 @@ func specOtherRegName(s string) bool {
 	return false
 }
 
+// specReg64Name: the eight 64-bit register names that share a number with a 32-bit register.
+func specReg64Name(s string) bool {
+	switch s {
+	case "RAX", "RCX", "RDX", "RBX", "RSP", "RBP", "RSI", "RDI":
+		return true
+	}
+	return false
+}
+
 // specIsRegName: s is one of the RegisterName alternatives of the operand grammar.
 func specIsRegName(s string) bool {
 	return specReg32(s) >= 0 || specReg16(s) >= 0 || specReg8(s) >= 0 || specSreg(s) >= 0 || specCreg(s) >= 0 || specOtherRegName(s)
